@@ -1,8 +1,12 @@
 (* C16 -- the span queue applies back-pressure without blocking.  Statements only.
-   Model: TraceObs.v (LTS of trace_observer.go; cfg.fixed = false is the code as it is, cfg.fixed = true the
-   code with build/c16/fix.patch).  Proofs: TraceObsProofs.v.
+   Model: TraceObs.v (LTS of trace_observer.go).  `fixed c = true` is the CURRENT code (/repo with the
+   commits 924bc09, 296039d, 1697f0e); `fixed c = false` is the code before them and appears only in the
+   regression witnesses at the end.  Proofs: TraceObsProofs.v.
    `wf c` is 1 <= QueueSize < 2^64.  `app_sd_callable c = false` says that nobody calls
-   closeInitiateAppShutdown (no caller exists in the tree; the check greps for one on every run). *)
+   closeInitiateAppShutdown (no caller exists in the tree; the check greps for one on every run).
+   Every theorem quantifies over all reachable states, i.e. over all batch-size sequences (0, = QueueSize,
+   > QueueSize, up to 2^64-1), all queue sizes, all sender behaviours (the sender's answers are labels of
+   the LTS: connected, failing, restarting, stuck in connect or send) and all interleavings. *)
 From Coq Require Import NArith List Bool.
 From Verif Require Import TraceObs TraceObsProofs.
 Import ListNotations.
@@ -22,105 +26,35 @@ Theorem C16_accepts_sound : forall c os,
 Proof. exact accepts_sound. Qed.
 Print Assumptions C16_accepts_sound.
 
-(* ---- C16_counter_inv: on every reachable state of either variant, for every queue size, batch-size
-   sequence, sender behaviour and interleaving:
+(* ---- the capacity counter never wraps and is exact:
      remaining + queued spans + spans in the worker's hands + spans reported but not yet drained
-     (+ what emptyQueue holds, + what closeMessages discarded)  ==  QueueSize (+ the pending decrement)
-   modulo 2^64. *)
-Theorem C16_counter_inv : forall c s, wf c -> reachable c s ->
-  rem s < W /\
-  (rem s + qsum (msgs s) + hand (work s) + qsum (sent s) + pdrop (prod s) + g_left s) mod W
-  = (qsize c + ppend (prod s)) mod W.
-Proof. exact thm_counter_inv. Qed.
-Print Assumptions C16_counter_inv.
-
-(* ... and it is an equation in N as long as the counter has not wrapped. *)
-Theorem C16_counter_exact : forall c s, wf c -> reachable c s -> wrapped s = false ->
+     (+ what emptyQueue holds, + what closeMessages discarded)  =  QueueSize (+ the pending decrement). *)
+Theorem C16_counter_inv : forall c s, wf c -> fixed c = true -> reachable c s ->
+  wrapped s = false /\ rem s < W /\
   rem s + qsum (msgs s) + hand (work s) + qsum (sent s) + pdrop (prod s) + g_left s
   = qsize c + ppend (prod s).
-Proof. exact thm_counter_exact. Qed.
-Print Assumptions C16_counter_exact.
+Proof. exact thm_counter_inv_current. Qed.
+Print Assumptions C16_counter_inv.
 
-(* The counter can only wrap when a batch larger than the queue was offered, or after the worker has
-   taken a batch out of the queue (capacity held by batches in flight is not reclaimed by emptyQueue). *)
-Theorem C16_wrap_only_if : forall c tr s, wf c -> steps c (init c) tr s ->
-  (forall n, In (LCall n) tr -> n <= qsize c) -> ~ In LRecv tr ->
-  wrap_free c s = true.
-Proof. exact thm_wrap_only_if. Qed.
-Print Assumptions C16_wrap_only_if.
-
-(* ---- C16_never_blocks.  Full statement (FALSE of the code as it is):
-     forall c tr s, wf c -> fixed c = false -> app_sd_callable c = false ->
-       steps c (init c) tr s -> producer_blocked c s = false.
-   Refuted three ways: (1) zero-count batches, (2) a count above QueueSize, (2') counts within
-   [1, QueueSize] with a batch in the worker's hands; and (4, latent) after closeInitiateAppShutdown. *)
-Theorem C16_never_blocks_refuted :
-  exists tr s, steps (c_asis 1) (init (c_asis 1)) tr s /\ producer_blocked (c_asis 1) s = true.
-Proof. exact never_blocks_refuted. Qed.
-Print Assumptions C16_never_blocks_refuted.
-
-Theorem C16_never_blocks_big_refuted :
-  exists tr s, steps (c_asis 1) (init (c_asis 1)) tr s /\
-               producer_blocked (c_asis 1) s = true /\ all_counts_in 1 2 tr = true.
-Proof. exact never_blocks_big_refuted. Qed.
-Print Assumptions C16_never_blocks_big_refuted.
-
-Theorem C16_never_blocks_inrange_refuted :
-  exists tr s, steps (c_asis 1) (init (c_asis 1)) tr s /\
-               producer_blocked (c_asis 1) s = true /\ all_counts_in 1 1 tr = true.
-Proof. exact never_blocks_inrange_refuted. Qed.
-Print Assumptions C16_never_blocks_inrange_refuted.
-
-Theorem C16_supp_block_latent :
-  exists tr s, steps c_appsd (init c_appsd) tr s /\
-               producer_blocked c_appsd s = true /\ all_counts_in 1 1 tr = true.
-Proof. exact supp_block_latent. Qed.
-Print Assumptions C16_supp_block_latent.
-
-(* Partial (either variant): no count 0, and the counter neither wrapped nor about to: then neither the
-   producer nor the worker is ever at a channel operation that cannot proceed. *)
-Theorem C16_never_blocks_partial : forall c tr s,
-  wf c -> app_sd_callable c = false -> steps c (init c) tr s ->
-  (forall n, In (LCall n) tr -> 1 <= n) -> wrap_free c s = true ->
-  producer_blocked c s = false /\ worker_blocked c s = false.
-Proof. exact thm_never_blocks_partial. Qed.
-Print Assumptions C16_never_blocks_partial.
-
-(* Repaired variant: the full statement, for every batch-size sequence (0, = QueueSize, > QueueSize, ...). *)
-Theorem C16_never_blocks_fixed : forall c s,
+(* ---- neither the producer (= the processor) nor the worker is ever at a channel operation that cannot
+   proceed: not `to.messages <- b`, not a send on a supportability channel, not `to.messagesSent <- n`. *)
+Theorem C16_never_blocks : forall c s,
   wf c -> fixed c = true -> app_sd_callable c = false -> reachable c s ->
   producer_blocked c s = false /\ worker_blocked c s = false.
 Proof. exact thm_never_blocks_fixed. Qed.
-Print Assumptions C16_never_blocks_fixed.
+Print Assumptions C16_never_blocks.
 
-(* ---- C16_bound.  Full statement (FALSE of the code as it is):
-     forall c s, wf c -> fixed c = false -> reachable c s -> qsum (msgs s) <= qsize c. *)
-Theorem C16_bound_refuted :
-  exists tr s, steps (c_asis 1) (init (c_asis 1)) tr s /\ qsize (c_asis 1) < qsum (msgs s).
-Proof. exact bound_refuted. Qed.
-Print Assumptions C16_bound_refuted.
-
-Theorem C16_bound_inrange_refuted :
-  exists tr s, steps (c_asis 2) (init (c_asis 2)) tr s /\
-               qsize (c_asis 2) < qsum (msgs s) /\ all_counts_in 1 2 tr = true.
-Proof. exact bound_inrange_refuted. Qed.
-Print Assumptions C16_bound_inrange_refuted.
-
-Theorem C16_bound_partial : forall c s, wf c -> reachable c s -> wrap_free c s = true ->
-  qsum (msgs s) <= qsize c /\ rem s <= qsize c + ppend (prod s) /\ lenN (msgs s) <= qsize c.
-Proof. exact thm_bound_partial. Qed.
-Print Assumptions C16_bound_partial.
-
-Theorem C16_bound_fixed : forall c s, wf c -> fixed c = true -> reachable c s ->
+(* ---- the spans waiting in the queue never exceed QueueSize; the counter stays within [0, QueueSize]
+   (+ the decrement still to come). *)
+Theorem C16_bound : forall c s, wf c -> fixed c = true -> reachable c s ->
   qsum (msgs s) <= qsize c /\ rem s <= qsize c + ppend (prod s) /\ wrapped s = false.
 Proof. exact thm_bound_fixed. Qed.
-Print Assumptions C16_bound_fixed.
+Print Assumptions C16_bound.
 
-(* ---- C16_accounting (either variant, every reachable state; g_off < 2^64 = fewer than 2^64 spans were
-   ever offered, so that emptyQueue's uint64 `dropped` did not overflow): every span handed over is in
-   exactly one place -- sent, failed, dumped with the queue, refused after shutdown began, discarded by
-   closeMessages (still queued at shutdown), still queued, in the worker's hands, or in the producer's
-   hands inside the current call. *)
+(* ---- every span handed over is in exactly one place -- sent, failed, dumped with the queue (or dropped
+   because it did not fit), refused after shutdown began, discarded by closeMessages (still queued at
+   shutdown), still queued, in the worker's hands, or in the producer's hands inside the current call.
+   (g_off < 2^64: fewer than 2^64 spans were ever offered.  Holds of either variant.) *)
 Theorem C16_accounting : forall c s, wf c -> reachable c s -> g_off s < W ->
   g_off s = g_sent s + g_fail s + g_dump s + g_ref s + g_left s + qsum (msgs s) + hand (work s)
             + pdrop_acc (prod s) + pcall (prod s).
@@ -133,47 +67,91 @@ Theorem C16_accounting_quiescent : forall c s, wf c -> reachable c s -> g_off s 
 Proof. exact thm_accounting_quiescent. Qed.
 Print Assumptions C16_accounting_quiescent.
 
-(* ---- C16_shutdown_bounded.
-   (a) Shutdown never waits for anybody beyond its select: from the select, the time-out branch and then
-       closeMessages are steps of the producer alone (any state, either variant). *)
-Theorem C16_shutdown_returns : forall c s, prod s = PWait ->
-  exists tr s', steps c s tr s' /\ prod s' = PIdle /\ Forall producer_own tr /\
-                (length tr <= 3 + length (msgs s))%nat.
-Proof. exact shutdown_returns. Qed.
-Print Assumptions C16_shutdown_returns.
-
-(* (b) Full statement (FALSE of the code as it is):
-       forall c s, wf c -> fixed c = false -> reachable c s -> crashed s = false.
-       Refuted: Shutdown times out while the worker is still in connect(); closeMessages; nil batch. *)
-Theorem C16_shutdown_crash_refuted :
-  exists tr s, steps (c_asis 1) (init (c_asis 1)) tr s /\ crashed s = true /\ work s = WCrash.
-Proof. exact shutdown_crash_refuted. Qed.
-Print Assumptions C16_shutdown_crash_refuted.
-
-(* and zero-count batches leave the worker on `messagesSent <-` for ever after Shutdown *)
-Theorem C16_shutdown_worker_stuck_refuted :
-  exists tr s, steps (c_asis 1) (init (c_asis 1)) tr s /\
-               worker_blocked (c_asis 1) s = true /\ prod s = PIdle /\ closed s = true.
-Proof. exact worker_stuck_refuted. Qed.
-Print Assumptions C16_shutdown_worker_stuck_refuted.
-
-(* Partial: the producer never panics (no send on the closed channel), and nothing crashes as long as
-   closeMessages did not run while the worker was still inside its loop (closed_early). *)
-Theorem C16_shutdown_bounded_partial : forall c s, wf c -> reachable c s ->
-  is_pcrash (prod s) = false /\ (closed_early s = false -> crashed s = false).
-Proof. exact thm_shutdown_bounded_partial. Qed.
-Print Assumptions C16_shutdown_bounded_partial.
-
-(* Repaired variant: at any moment, in any sender state: no crash, nobody stuck on a channel. *)
-Theorem C16_shutdown_bounded_fixed : forall c s,
+(* ---- shutting the queue down, at any moment and in any sender state: nothing crashes (no nil batch is
+   dereferenced, nothing is sent on the closed channel), nobody is left on a channel operation, and from
+   its select Shutdown returns by the time-out branch and closeMessages, which are steps of the caller
+   alone. *)
+Theorem C16_shutdown_bounded : forall c s,
   wf c -> fixed c = true -> app_sd_callable c = false -> reachable c s ->
-  crashed s = false /\ worker_blocked c s = false /\ producer_blocked c s = false.
-Proof. exact thm_shutdown_bounded_fixed. Qed.
-Print Assumptions C16_shutdown_bounded_fixed.
+  crashed s = false /\ worker_blocked c s = false /\ producer_blocked c s = false /\
+  (prod s = PWait ->
+   exists tr s', steps c s tr s' /\ prod s' = PIdle /\ Forall producer_own tr /\
+                 (length tr <= 3 + length (msgs s))%nat).
+Proof. exact thm_shutdown_bounded_current. Qed.
+Print Assumptions C16_shutdown_bounded.
 
 (* The monitor's per-probe test asks nothing beyond the theorems. *)
 Theorem C16_monitor_probe_sound : forall c s pos peek,
-  wf c -> reachable c s -> wrap_free c s = true -> ppend (prod s) = 0 ->
+  wf c -> fixed c = true -> reachable c s -> ppend (prod s) = 0 ->
   probe_bound_ok (qsize c) (probe_of s pos peek) = true.
-Proof. exact probe_bound_sound. Qed.
+Proof. exact thm_monitor_probe_sound_current. Qed.
 Print Assumptions C16_monitor_probe_sound.
+
+(* Latent, an evidence note rather than a finding: the hypothesis app_sd_callable c = false is needed.
+   Were closeInitiateAppShutdown ever called, handleSupportability would return and emptyQueue's send on
+   the unbuffered supportability channel would have no partner (QueueSize 1, counts 1, 1). *)
+Theorem C16_latent_supportability_after_app_shutdown :
+  exists tr s, steps c_appsd_cur (init c_appsd_cur) tr s /\
+               producer_blocked c_appsd_cur s = true /\ all_counts_in 1 1 tr = true.
+Proof. exact supp_block_latent_current. Qed.
+Print Assumptions C16_latent_supportability_after_app_shutdown.
+
+(* ================================================================== regression witnesses
+   Facts about the OLD code (c_asis q: fixed = false, QueueSize q), one per defect, named after the commit
+   that repaired it.  The check replays the same scenarios on the implementation on every run; if a fix is
+   reverted the implementation follows these runs again and the monitor reports the signature. *)
+
+(* before 924bc09: batches of count 0 never consume capacity; the second one into a queue of one slot
+   leaves the producer on `to.messages <- b` *)
+Theorem C16_regression_924bc09_zero_count_blocks :
+  exists tr s, steps (c_asis 1) (init (c_asis 1)) tr s /\ producer_blocked (c_asis 1) s = true.
+Proof. exact never_blocks_refuted. Qed.
+Print Assumptions C16_regression_924bc09_zero_count_blocks.
+
+(* before 924bc09: they fill messagesSent too; after Shutdown the worker sits on `messagesSent <- 0` for ever *)
+Theorem C16_regression_924bc09_zero_count_worker_stuck :
+  exists tr s, steps (c_asis 1) (init (c_asis 1)) tr s /\
+               worker_blocked (c_asis 1) s = true /\ prod s = PIdle /\ closed s = true.
+Proof. exact worker_stuck_refuted. Qed.
+Print Assumptions C16_regression_924bc09_zero_count_worker_stuck.
+
+(* before 296039d: a batch of 2 spans into a queue of 1: 2 spans queued; the counter then wraps to 2^64-1
+   and the next batch finds the only slot taken *)
+Theorem C16_regression_296039d_count_exceeds_queue :
+  (exists tr s, steps (c_asis 1) (init (c_asis 1)) tr s /\ qsize (c_asis 1) < qsum (msgs s)) /\
+  (exists tr s, steps (c_asis 1) (init (c_asis 1)) tr s /\
+                producer_blocked (c_asis 1) s = true /\ all_counts_in 1 2 tr = true).
+Proof. exact (conj bound_refuted never_blocks_big_refuted). Qed.
+Print Assumptions C16_regression_296039d_count_exceeds_queue.
+
+(* before 296039d: counts within [1, QueueSize] with a batch in the worker's hands: emptyQueue finds
+   nothing to reclaim, the counter wraps to 2^64-1, the producer blocks (QueueSize 1) or 4 spans are
+   queued (QueueSize 2) *)
+Theorem C16_regression_296039d_inflight_wrap :
+  (exists tr s, steps (c_asis 1) (init (c_asis 1)) tr s /\ rem s = W - 1 /\ all_counts_in 1 1 tr = true) /\
+  (exists tr s, steps (c_asis 1) (init (c_asis 1)) tr s /\
+                producer_blocked (c_asis 1) s = true /\ all_counts_in 1 1 tr = true) /\
+  (exists tr s, steps (c_asis 2) (init (c_asis 2)) tr s /\
+                qsize (c_asis 2) < qsum (msgs s) /\ all_counts_in 1 2 tr = true).
+Proof. exact (conj counter_wraps_witness (conj never_blocks_inrange_refuted bound_inrange_refuted)). Qed.
+Print Assumptions C16_regression_296039d_inflight_wrap.
+
+(* before 1697f0e: Shutdown times out while the worker is still in connect(); closeMessages closes the
+   queue; connect() then succeeds and the select receives a nil batch *)
+Theorem C16_regression_1697f0e_close_under_worker :
+  exists tr s, steps (c_asis 1) (init (c_asis 1)) tr s /\ crashed s = true /\ work s = WCrash.
+Proof. exact shutdown_crash_refuted. Qed.
+Print Assumptions C16_regression_1697f0e_close_under_worker.
+
+(* the same inputs on the current code: three count-0 batches return at once; the old oversize run is not
+   a run any more, the batch of 2 is dropped and counted (dumped = 2, counter back at 1, queue empty); after
+   the late connect the worker sees the closed queue and completes the shutdown *)
+Theorem C16_regression_inputs_on_current_code :
+  option_map (producer_blocked (c_fix 1)) (run_trace (c_fix 1) (init (c_fix 1)) [LCall 0; LCall 0; LCall 0]) = Some false /\
+  run_trace (c_fix 1) (init (c_fix 1)) tr_big = None /\
+  option_map (fun s => (prod s, msgs s, rem s, g_dump s))
+     (run_trace (c_fix 1) (init (c_fix 1)) [LCall 2; LChkInit; LDrainDone; LEmptyDone; LSuppDump; LRecheck; LSuppDrop])
+    = Some (PIdle, [], 1, 2) /\
+  option_map work (run_trace (c_fix 1) (init (c_fix 1)) (tr_crash ++ [LStatus; LComplete])) = Some WDone.
+Proof. exact fixed_replays. Qed.
+Print Assumptions C16_regression_inputs_on_current_code.
